@@ -362,6 +362,38 @@ func relmodShape(repo string) (string, error) {
 	if fd := funcs["normalizeEvent"]; fd != nil {
 		evCalls = calledNormalizers(fd.Body)
 	}
+	// every range statement: over sortedKeys(...), over a known slice, or flagged
+	slices := map[string]bool{"m.Imports": true, "app.Mixin2": true, "ep.Param": true, "event.Param": true,
+		"ep.RestParams.UrlParam": true, "ep.RestParams.QueryParam": true, "ep.Stmt": true, "children": true,
+		"field.Constraint": true, "tags": true, "keys": true}
+	var unsorted []string
+	for _, fd := range funcDecls(gf.file) {
+		if fd.Body == nil || fd.Name.Name == "sortedKeys" {
+			continue
+		}
+		ast.Inspect(fd.Body, func(n ast.Node) bool {
+			rs, ok := n.(*ast.RangeStmt)
+			if !ok {
+				return true
+			}
+			if c, ok := rs.X.(*ast.CallExpr); ok {
+				if exprStr(c.Fun) == "sortedKeys" {
+					return true
+				}
+				if se, ok := c.Fun.(*ast.SelectorExpr); ok && se.Sel.Name == "Choice" { // stmt.GetAlt().Choice
+					return true
+				}
+			}
+			if se, ok := rs.X.(*ast.SelectorExpr); ok && se.Sel.Name == "Choice" {
+				return true
+			}
+			if slices[exprStr(rs.X)] {
+				return true
+			}
+			unsorted = append(unsorted, fd.Name.Name+":"+exprStr(rs.X))
+			return true
+		})
+	}
 	var sb strings.Builder
 	sb.WriteString("(* GENERATED by vt RelmodShape from pkg/arrai/relmod/normalize.go -- do not edit *)\n")
 	sb.WriteString("From Coq Require Import List String.\nImport ListNotations.\nRequire Import Verif.Relmod.Model.\nLocal Open Scope string_scope.\n")
@@ -375,5 +407,6 @@ func relmodShape(repo string) (string, error) {
 	fmt.Fprintf(&sb, "Definition app_calls : list string := %s.\n", coqList(appCalls, true))
 	fmt.Fprintf(&sb, "Definition endpoint_calls : list string := %s.\n", coqList(epCalls, true))
 	fmt.Fprintf(&sb, "Definition event_calls : list string := %s.\n", coqList(evCalls, true))
+	fmt.Fprintf(&sb, "Definition unsorted_map_ranges : list string := %s.\n", coqList(unsorted, true))
 	return sb.String(), nil
 }
